@@ -47,11 +47,11 @@ let built_s = function
 (* (tokens, outcome of to_rpc_params) *)
 let run_kind kind toks : string list * built =
   match kind with
-  | "array" ->
+  | "array" | "arrayd" ->      (* arrayd / objectd: built through Default instead of new(): the same builder *)
     let items = List.map parse_item toks in
     let b, out = List.fold_left (fun (b, out) v -> let (b', ok) = ins b v in (b', tok_result v ok :: out)) (positional, []) items in
     (List.rev out, Tres (builder_to_rpc_params b))
-  | "object" ->
+  | "object" | "objectd" ->
     let items = List.map parse_kv toks in
     let b, out = List.fold_left (fun (b, out) (k, v) -> let (b', ok) = ins_named b k v in (b', tok_result v ok :: out)) (named, []) items in
     (List.rev out, Tres (builder_to_rpc_params b))
